@@ -53,6 +53,8 @@ def configs(tier):
                 cfgs.append(dict(group='imputer', shape=shape, use_storage=use_storage, direct=direct,
                                  q=2 if (use_storage or tier == 'thorough') else 1, _cost=200))
     cfgs.append(dict(group='paths_agree'))
+    # three updates: both leaves of a branch hold a reservoir before learn_one prunes it (several reservoirs outdated at once)
+    cfgs.append(dict(group='storage', shape='stump', vary='a', T=3, _cost=5000))
     return cfgs
 
 
